@@ -68,7 +68,7 @@ def cases(tier):
         p3 = [(i, j) for i in range(len(sh3)) for j in range(i, len(sh3))]
         for k in range(0, len(p3), B):
             out.append(('shapes3', 3, tuple(p3[k:k + B])))
-    for sc in ('quote', 'propagate', 'registry', 'objects', 'objects2', 'object-reuse', 'wiring', 'optional', 'distance',
+    for sc in ('quote', 'propagate', 'through-memory', 'registry', 'objects', 'objects2', 'object-reuse', 'wiring', 'optional', 'distance',
                'floats'):
         out.append((sc, 0, ()))
     return out
@@ -236,6 +236,17 @@ def make_harness(case, tier):
                 ctx.check(z3.Implies(to_bool_term(k1 != k2), to_bool_term(d1 != d2)), 'upstream-change-propagates',
                           {'scenario': 'value', 'task': t, 'v1': describe(va), 'v2': describe(vb)})
                 k1, k2 = d1, d2
+        elif kind == 'through-memory':
+            # a parameter change upstream of an in-memory task moves every persisted task downstream of it
+            spec = [P('Src', params=[par('x')]), P('Mem', inputs=[inp('Src')], data='mem', params=[par('m', default=0)]),
+                    P('Out', inputs=[inp('Mem')]), P('Out2', inputs=[inp('Out')], data='dir')]
+            x1, x2, m1, m2 = Q('x1'), Q('x2'), I('m1'), I('m2')
+            c1, c2 = two_chains(fs, spec, {'x': x1, 'm': m1}, {'x': x2, 'm': m2})
+            differ = z3.Or(z3.Not(py_eq(x1, x2)), z3.Not(py_eq(m1, m2)))
+            for t in ('out', 'out2'):
+                k1, k2 = c1.tasks[t].name_for_persistence, c2.tasks[t].name_for_persistence
+                ctx.check(z3.Implies(differ, keys_differ(k1, k2)), 'distinct-values=>distinct-keys',
+                          {'scenario': 'through-memory', 'task': t, 'v1': [x1, m1], 'v2': [x2, m2]})
         elif kind == 'registry':
             spec = [P('Multi', params=[par('a'), par('b', default='bd', dpdv=True), par('c', default=0),
                                        par('ab', default=None, dpdv=True), par('ig', default=0, ignore=True)])]
